@@ -835,6 +835,21 @@ exec_c02(const vcase *vc)
 	// the operation may still be legitimately pending (nobody completes, cancels or closes it), possibly with an
 	// actor blocked in nng_aio_wait / nng_aio_stop / nng_aio_free on it: finish it now, then collect the actors
 	M.resub = 0; // no further re-submission: the harness is winding the case down
+	{
+		// round 7: once the close of the socket / context / dialer the operation is pending on has RETURNED and the library is
+		// quiescent, the operation must have completed - judged before the harness cancels what is left (its cancel would run
+		// the provider's cancel function on the destroyed object and look like the recorded cancel hand-off finding)
+		bool closed_obj = false;
+		for (auto &A : actors)
+			closed_obj = closed_obj || (A.what == 5 && A.done);
+		bool close_kind = !(M.kind == K_SLEEP || M.kind == K_DEVICE || M.kind == K_HTTP_TRANSACT || M.kind == K_WS_DIAL || M.kind == K_STREAM_RECV || M.kind == K_STREAM_SEND ||
+		    M.kind == K_STREAM_ACCEPT);
+		if (closed_obj && close_kind && !M.freed && M.callbacks < M.submissions && M.fail_sig == nullptr)
+			vr_fail("C02:pending-after-close", "%s: the object the operation was pending on has been closed (the close returned, the library is quiescent) but the operation is still pending: %d submission(s), %d callback(s)",
+			    kKindName[M.kind], M.submissions, M.callbacks);
+		if (closed_obj && close_kind)
+			vr_tag("object_closed_while_tracked");
+	}
 	bool all_done = true;
 	for (auto &A : actors)
 		all_done = all_done && A.done;
